@@ -1875,7 +1875,12 @@ pub fn make_refi(name: &str, cfg: &Value, first: &Candle) -> Option<Box<dyn RefI
 		}
 		"AwesomeOscillator" => {
 			let s = src(first, cfg_src(cfg, "source"));
-			Box::new(Awesome { source: cfg_src(cfg, "source"), ma1: MaRef::from_cfg(cfg, "ma1", s), ma2: MaRef::from_cfg(cfg, "ma2", s), rev: RevRef::new(cfg_p(cfg, "left"), cfg_p(cfg, "right"), z), cross: CrossRef::default(), peaks: cfg_p(cfg, "conseq_peaks") as i64, high: Some(0), low: Some(0) })
+			// the detector is seeded with the oscillator's own initial value: both averages are advanced by one copy of the first
+			// source value at construction (zero only up to rounding), see the repair recorded for C08
+			let mut ma1 = MaRef::from_cfg(cfg, "ma1", s);
+			let mut ma2 = MaRef::from_cfg(cfg, "ma2", s);
+			let seed = ma2.next(s) - ma1.next(s);
+			Box::new(Awesome { source: cfg_src(cfg, "source"), ma1, ma2, rev: RevRef::new(cfg_p(cfg, "left"), cfg_p(cfg, "right"), seed), cross: CrossRef::default(), peaks: cfg_p(cfg, "conseq_peaks") as i64, high: Some(0), low: Some(0) })
 		}
 		"BollingerBands" => {
 			let s = src(first, cfg_src(cfg, "source"));
